@@ -629,4 +629,104 @@ theorem mapPipeline_equiv {κ} {t₁ t₂ : RawTree} {vote : LevelLoop.Oracle κ
       hv₂ hlen hnd hproc hcs horder,
     mkRecord_equiv e w₁ w₂ hob hv₁, e.hier]
 
+/-! ### taxonomies built from label columns -/
+
+/-- the taxonomy built from at least one record has a node -/
+theorem hasNode_fromRecords {cols : List Level} {recs : List (List Node)} (hc : cols.Nodup)
+    (hne : cols ≠ []) (hr : RecsOK cols recs) (hn : Nested cols recs) (hrec : recs ≠ []) :
+    HasNode (fromRecordsRaw cols recs) := by
+  have w := fromRecordsRaw_wf hc hne hr hn
+  obtain ⟨r0, rs0, rfl⟩ := List.exists_cons_of_ne_nil hrec
+  have hpos : 0 < cols.length := List.length_pos_iff.2 hne
+  have hlen : r0.length = cols.length := hr r0 (by simp)
+  have h0 : cols[0]? = some cols[0] := List.getElem?_eq_getElem hpos
+  have : r0[0]'(by omega) ∈ (fromRecordsRaw cols (r0 :: rs0)).nodesAt cols[0] :=
+    (build_nodes hc hr h0 _).2 ⟨r0, by simp, List.getElem?_eq_getElem (by omega)⟩
+  exact hasNode_of_mem w (List.getElem_mem hpos) this
+
+theorem split_at_idx {α} (l : List α) {i : Nat} (hi : i + 1 < l.length) :
+    l = l.take i ++ l[i] :: l[i+1] :: l.drop (i+2) := by
+  have h1 : l.drop i = l[i] :: l.drop (i+1) := List.drop_eq_getElem_cons (by omega)
+  have h2 : l.drop (i+1) = l[i+1] :: l.drop (i+2) := List.drop_eq_getElem_cons hi
+  calc l = l.take i ++ l.drop i := (List.take_append_drop i l).symm
+    _ = _ := by rw [h1, h2]
+
+/-! ### an order-blind oracle (non-vacuity of `OrderBlind`, `VoteChild`) -/
+
+/-- an order-blind oracle for non-vacuity examples: the smallest child -/
+def minVote : LevelLoop.Oracle Nat := fun _ kids _ =>
+  { assignment := (kids.map (·.1)).foldl min ((kids.map (·.1)).headD 0), prob := 1, corr := none,
+    runnersUp := none }
+
+theorem foldl_min_mem : ∀ (xs : List Nat) (a : Nat), xs.foldl min a = a ∨ xs.foldl min a ∈ xs
+  | [], _ => Or.inl rfl
+  | x :: xs, a => by
+    simp only [List.foldl_cons, List.mem_cons]
+    rcases foldl_min_mem xs (min a x) with h | h
+    · rw [h]
+      rcases Nat.le_total a x with hax | hxa
+      · left; exact Nat.min_eq_left hax
+      · right; left; exact Nat.min_eq_right hxa
+    · right; right; exact h
+
+theorem foldl_min_le : ∀ (xs : List Nat) (a : Nat), xs.foldl min a ≤ a ∧ ∀ x ∈ xs, xs.foldl min a ≤ x
+  | [], _ => ⟨Nat.le_refl _, by simp⟩
+  | y :: ys, a => by
+    obtain ⟨h1, h2⟩ := foldl_min_le ys (min a y)
+    simp only [List.foldl_cons, List.mem_cons]
+    refine ⟨Nat.le_trans h1 (Nat.min_le_left _ _), ?_⟩
+    rintro x (rfl | hx)
+    · exact Nat.le_trans h1 (Nat.min_le_right _ _)
+    · exact h2 x hx
+
+theorem minVote_child : VoteChild minVote := by
+  intro p kl c hk
+  simp only [minVote]
+  cases hkl : kl.map (·.1) with
+  | nil =>
+    have : kl.length = 0 := by simpa using congrArg List.length hkl
+    omega
+  | cons a as =>
+    simp only [List.headD_cons]
+    rcases foldl_min_mem (a :: as) a with h | h
+    · rw [h]; simp
+    · exact h
+
+theorem minVote_orderBlind : OrderBlind minVote := by
+  intro p a b c _ hke
+  have hperm := hke.1
+  simp only [minVote]
+  congr 1
+  -- the minimum of a list does not depend on its order
+  have key : ∀ (xs : List Nat), xs ≠ [] → ∀ m, (m ∈ xs ∧ ∀ x ∈ xs, m ≤ x) →
+      xs.foldl min (xs.headD 0) = m := by
+    intro xs hne m ⟨hm, hle⟩
+    cases xs with
+    | nil => exact absurd rfl hne
+    | cons y ys =>
+      simp only [List.headD_cons]
+      obtain ⟨h1, h2⟩ := foldl_min_le (y :: ys) y
+      have hmem : (y :: ys).foldl min y ∈ y :: ys := by
+        rcases foldl_min_mem (y :: ys) y with h | h
+        · rw [h]; simp
+        · exact h
+      exact Nat.le_antisymm (h2 m hm) (hle _ hmem)
+  cases ha : a.map (·.1) with
+  | nil =>
+    rw [ha] at hperm
+    rw [List.nil_perm.mp hperm]
+  | cons y ys =>
+    rw [ha] at hperm
+    have hbne : b.map (·.1) ≠ [] := by
+      intro h; rw [h] at hperm; exact absurd (List.perm_nil.mp hperm) (by simp)
+    obtain ⟨h1, h2⟩ := foldl_min_le (y :: ys) y
+    have hmem : (y :: ys).foldl min y ∈ y :: ys := by
+      rcases foldl_min_mem (y :: ys) y with h | h
+      · rw [h]; simp
+      · exact h
+    have := key (b.map (·.1)) hbne ((y :: ys).foldl min y)
+      ⟨hperm.mem_iff.mp hmem, fun x hx => h2 x (hperm.mem_iff.mpr hx)⟩
+    simp only [List.headD_cons]
+    exact this.symm
+
 end CTM.Bridge
